@@ -27,6 +27,9 @@ static long ktid[MAXT];
 static uint64_t points = 0;
 static __thread int my_tid = -1;
 
+static int exit_on_stall = 0;
+void vb_exit_on_stall(int v) { exit_on_stall = v; }
+
 void vb_reset(int n) {
     pthread_mutex_lock(&mu);
     nthreads = n > MAXT ? MAXT : n;
@@ -117,6 +120,7 @@ int vb_run(const unsigned char *sched, int sched_len, uint64_t seed, unsigned ch
         int blocked_ms = 0;
         unsigned long cpu0 = 0, cpu1 = 0;
         int have_cpu0 = 0;
+        long idle_ms = 0;
         for (;;) {
             int quiescent = (granted == -1);
             for (int t = 0; t < nthreads && quiescent; t++)
@@ -132,16 +136,39 @@ int vb_run(const unsigned char *sched, int sched_len, uint64_t seed, unsigned ch
             if (dl.tv_nsec >= 1000000000L) { dl.tv_sec++; dl.tv_nsec -= 1000000000L; }
             pthread_cond_timedwait(&cv, &mu, &dl);
             int g = granted;
+            if (g == -1) {
+                /* nobody holds the baton and somebody is neither parked nor finished: if every such thread sleeps for
+                   30 s (e.g. waiting for the interpreter lock that a parked thread holds) nothing will ever change */
+                int all_asleep = 1, any = 0;
+                for (int t = 0; t < nthreads; t++) {
+                    if (registered[t] && !(parked[t] || finished[t])) {
+                        unsigned long c;
+                        char s = thread_state(ktid[t], &c);
+                        any = 1;
+                        if (!(s == 'S' || s == 'D' || s == 't' || s == 'T')) all_asleep = 0;
+                    }
+                }
+                if (any && all_asleep) idle_ms += 100; else idle_ms = 0;
+                if (idle_ms > 30000) {
+                    pthread_mutex_unlock(&mu);
+                    if (exit_on_stall) _exit(4);
+                    return -1;
+                }
+            }
             if (g >= 0 && g < MAXT && registered[g]) {
                 char s = thread_state(ktid[g], &cpu1);
                 if (!have_cpu0) { cpu0 = cpu1; have_cpu0 = 1; }
                 if (s == 'S' || s == 'D' || s == 't' || s == 'T') blocked_ms += 100; else if (s) blocked_ms = 0;
                 if (blocked_ms > 30000) {
                     pthread_mutex_unlock(&mu);
+                    /* the caller may be unable to take the interpreter lock again (a thread parked at a point while
+                       holding it): in a worker process report through the exit status instead of returning */
+                    if (exit_on_stall) _exit(4);
                     return -1;
                 }
                 if (hz > 0 && (cpu1 - cpu0) / (unsigned long)hz > 30) {
                     pthread_mutex_unlock(&mu);
+                    if (exit_on_stall) _exit(5);
                     return -2;
                 }
             }
